@@ -946,9 +946,9 @@ def _refresh_elementwise_output_shape(node: ir.Node) -> None:
         if dims is None:
             continue
         # A size-1 constant still takes part in broadcasting when its rank is
-        # higher than the other operands' ((3,) with a (1, 1) constant is (1, 3));
-        # a rank-0 one merges away by itself.
-        if _is_scalar_const_value(iv) and len(dims) <= 1:
+        # higher than the other operands' ((3,) with a (1, 1) constant is (1, 3),
+        # a rank-0 value with a (1,) constant is (1,)); only a rank-0 one is neutral.
+        if _is_scalar_const_value(iv) and len(dims) == 0:
             continue
         candidate_shapes.append(dims)
     merged = _broadcast_shape_dims(candidate_shapes)
